@@ -548,6 +548,17 @@ def _run_from_model(case, ctx):
             if rng > 0 and float(numpy.max(numpy.abs(pred - exp))) > 1e-5 * rng:
                 ctx.violation(_not_reproduced_key(name, rf[1], float(numpy.max(numpy.abs(pred - exp))), rng) if name == "JensenSeaton" else "refit/%s/curve-differs" % name, "re-fitting the generated points does not return the same curve", model=name, P=P, fitted=dict(rf[1].model.params), max_dev=float(numpy.max(numpy.abs(pred - exp))),
                               range=rng, units=units)
+            # ... and the re-fitted model isotherm (which carries the metadata of the generated points, among it the note
+            # which model they came from) is a model isotherm like any other: points generated from it lie on it
+            again = _call(pygaps.PointIsotherm.from_modelisotherm, rf[1], pressure_points=p)
+            ctx.case(["regenerate", name, case["seed"]])
+            ctx.count("from_model", "regenerated-from-the-refitted-model")
+            if again[0] != "ok":
+                ctx.violation("from_modelisotherm/raises/refitted-model", "generating a point isotherm from a re-fitted model isotherm raised", exc=again[1], model=name, metadata=sorted(rf[1].properties))
+            else:
+                l2 = numpy.asarray(again[1].loading(branch=mbranch), dtype=float)
+                if len(l2) != len(pred) or not numpy.allclose(l2, pred, rtol=1e-9, atol=1e-12 * (abs(pred).max() + 1)):
+                    ctx.violation("from_modelisotherm/points-off-model/refitted-model", "points generated from the re-fitted model do not lie on it", model=name, got=l2[:4], expected=pred[:4])
 
 
 def _run_covariance(case, ctx):
